@@ -222,6 +222,7 @@ func init() {
 			{Name: "prefixes", Run: prefixUnit("fastq", false, 0)},
 			{Name: "edges", Run: edgeUnit("fastq")},
 			{Name: "lexicon", TShards: 4, Run: lexiconUnit("fastq")},
+			{Name: "mixedsizes", QShards: 4, TShards: 8, Run: mixedSizesUnit("fastq")},
 			{Name: "fieldlens", TShards: 2, Run: lengthUnit("fastq")},
 			{Name: "parallel", Race: true, Run: codecParallel("fastq")},
 			{Name: "histories", Run: codecHistories("fastq")},
